@@ -29,6 +29,7 @@ Wrappers == <<
 More == <<
   [t |-> "u64",  v |-> 3],
   [t |-> "cstr", v |-> "xyz"],
+  [t |-> "vcs",  v |-> <<"p", "", "qr">>],
   [t |-> "vvi",  v |-> << <<1>>, <<>> >>],
   [t |-> "vs",   v |-> <<>>],
   [t |-> "raw",  v |-> <<>>],
